@@ -220,6 +220,12 @@ func runC03(cx *ctx) {
 					note = "body length changed"
 				}
 				f := append(marshalGo(c), payload...)
+				if bytes.Equal(f, file) {
+					// the random edit happened to reproduce the original (e.g. an argument replaced by an equal one)
+					c.MAC[0] ^= 1
+					note += "; the edit was the identity, MAC bit flipped instead"
+					f = append(marshalGo(c), payload...)
+				}
 				idIdx := re.Intn(len(ids))
 				return fdecCase("edit", f, ids[idIdx:idIdx+1], idDs[idIdx:idIdx+1],
 					fmt.Sprintf("recipients=[%s] %s", labelsOf(ps), note), headerOracle(file))
